@@ -244,6 +244,9 @@ type Program struct {
 	Pipelines []*Pipeline
 	Top       *Call
 	StageCmd  string // command prefix for src comp
+	// Delays: milliseconds a stage's jobs sleep before finishing (by stage
+	// name), for families whose point is who finishes first
+	Delays map[string]int
 }
 
 // ---------------------------------------------------------------- MRO text
@@ -499,7 +502,11 @@ func (p *Program) Spec() map[string]interface{} {
 		}
 		stages[s.Name] = m
 	}
-	return map[string]interface{}{"stages": stages}
+	out := map[string]interface{}{"stages": stages}
+	if len(p.Delays) > 0 {
+		out["delays"] = p.Delays
+	}
+	return out
 }
 
 func bigInt(i int64) *big.Int { return big.NewInt(i) }
